@@ -88,6 +88,13 @@ __CPROVER_ensures (htab->hash_function == __CPROVER_old (htab->hash_function) &&
 __CPROVER_ensures (gh_k < htab->size ==> htab->entries[gh_k] != DELETED_ENTRY)
 ;
 
+/* Under HT.find's precondition (load below the growth threshold) the expansion branch is dead: the call site must
+   prove this contract's precondition `false`, i.e. that it is unreachable.  Expansion itself is the bounded set HT.abs.expand. */
+void expand_unreachable_c (hash_table_t htab)
+__CPROVER_requires (0)
+__CPROVER_assigns ()
+__CPROVER_ensures (1)
+;
 /* ---- HT.find ---- */
 int gh_reserve;
 size_t gh_n0, gh_d0;
